@@ -29,7 +29,7 @@ RULE = ("one case = solver configuration (class, knobs) + matrix class + 1-2 sol
 PROBES = ["fallback_fired_forced", "fallback_fired_natural", "switched_back_to_cholesky", "cg_converged_at_iteration_0",
           "cg_restart_taken", "two_level_multigrid", "solve_after_second_update", "two_objects_interleaved", "dependent_columns",
           "auto_manual_override", "fortran_ordered_matrix", "block_cg_rank_deficient_at_rounding_limit", "auto_returned_cholesky", "auto_returned_ldl", "auto_returned_lu", "auto_returned_diagonal", "auto_returned_sparselu",
-          "trans_T_complex", "trans_H_complex", "rhs_fortran_order", "rhs_strided_view", "matrix_given_to_constructor", "one_by_one_matrix"]
+          "trans_T_complex", "trans_H_complex", "rhs_fortran_order", "rhs_strided_view", "matrix_given_to_constructor", "one_by_one_matrix", "same_matrix_object_modified_in_place"]
 FAULT_KINDS = ["cholesky_fail_forced", "cholesky_fail_natural"]
 COMPONENTS = {"real": ["pymoto.solvers: SolverDiagonal, SolverDenseQR, SolverDenseLU, SolverDenseCholesky, SolverDenseLDL, "
                        "SolverSparseLU, CG, Preconditioner, DampedJacobi, SOR, ILU, GeometricMultigrid, auto_determine_solver",
@@ -104,6 +104,9 @@ def gen(rng, idx, tier):
             ops.append(dict(op="update", o=(j if j < nobj else o), seed=int(rng.integers(1 << 30)),
                             pattern=str(rng.choice(["full", "full", "banded", "random", "block"])),
                             scale=scale * float(rng.choice([1.0, 1.0, 10.0, 0.1]))))
+            # a third of the re-updates hand over the SAME matrix object, modified in place (seeded change C05-7); derived
+            # from the op seed so that the generator's random stream is the one of earlier rounds
+            ops[-1]["inplace"] = bool(ops[-1]["seed"] % 3 == 0)
         else:
             ops.append(dict(op="solve", o=o, seed=int(rng.integers(1 << 30)), trans=str(rng.choice(["N", "N", "T", "H"])),
                             k=int(rng.choice([0, 0, 1, 2, 3])), cplx=bool(rng.random() < p_cplx_rhs),
@@ -311,7 +314,7 @@ def run(case):
     nobj = case.get("nobj", 1)
     if nobj == 2:
         probe("two_objects_interleaved")
-    objs = [dict(solver=None, A=None, nupd=0, prev=None, chol_ok=None) for _ in range(nobj)]
+    objs = [dict(solver=None, A=None, live=None, nupd=0, prev=None, chol_ok=None) for _ in range(nobj)]
     tol = case["knobs"]["tol"]
     bound = 2 * tol if is_iterative(case) else 1e-9
     out = io.StringIO()
@@ -328,7 +331,17 @@ def run(case):
             pattern = op["pattern"]
             if ob["solver"] is None and case["solver"].startswith("auto") and case["cls"] != "diag":
                 pattern = "full"     # auto_determine_solver inspects the first matrix: it must be generic for its class
-            A = make_matrix(case, op["seed"], pattern, op["scale"])
+            if op.get("inplace") and ob.get("live") is not None and ob["solver"] is not None:
+                A = ob["live"]              # same object as before, new content: scaled in place, then update(A) again
+                c_ = (3.0, 0.25)[(op["seed"] // 3) % 2]
+                if isinstance(A, np.ndarray):
+                    A *= c_
+                else:
+                    A.data *= c_
+                probe("same_matrix_object_modified_in_place")
+            else:
+                A = make_matrix(case, op["seed"], pattern, op["scale"])
+            ob["live"] = A
             A_ref = A.copy()                # the oracle's own copy, taken before the solver sees the matrix
             if isinstance(A, np.ndarray) and not A.flags.c_contiguous:
                 probe("fortran_ordered_matrix")
